@@ -39,6 +39,8 @@ def flat_types(t):
 
 
 def supported(sig):
+  if sig.get("kind", "func") != "func" or sig.get("extras"):
+    return False
   ts = list(sig["params"]) + flat_types(sig["ret"])
   return all(isinstance(t, str) and t in WP_T for t in ts)
 
